@@ -399,6 +399,8 @@ pub struct Sched {
     pub blocked: Vec<(u64, u64)>,
     /// (to, message type) pairs that are lost in transit (selective loss used by scripted scenarios)
     pub blocked_types: Vec<(u64, String)>,
+    /// (destination, type): such messages stay in flight, neither delivered nor dropped
+    pub hold_types: Vec<(u64, String)>,
     pub w_apply: u32,
     /// messages that stay in the network for a long time: view-json -> step at which they may be delivered
     pub held: std::collections::HashMap<String, usize>,
@@ -474,6 +476,7 @@ impl Sched {
             rng,
             blocked: vec![],
             blocked_types: vec![],
+            hold_types: vec![],
             w_apply: 20,
             held: Default::default(),
             seen: Default::default(),
@@ -672,6 +675,16 @@ impl Sched {
             if p.w_campaign > 0 {
                 cands.push((p.w_campaign, Choice::Campaign { n }));
             }
+            if self.rng.gen_range(0..8) == 0 {
+                let local = self.rng.gen_bool(0.5);
+                let ty = if local {
+                    *["Hup", "Beat", "Unreachable", "SnapStatus", "CheckQuorum"].choose(&mut self.rng).unwrap()
+                } else {
+                    *["AppResp", "VoteResp", "HBResp", "PreVoteResp"].choose(&mut self.rng).unwrap()
+                };
+                let from = if local { *p.ids.choose(&mut self.rng).unwrap() } else { 9 };
+                cands.push((1, Choice::Bogus { n, ty: ty.into(), from }));
+            }
             if p.w_reqsnap > 0 {
                 cands.push((p.w_reqsnap, Choice::RequestSnap { n }));
             }
@@ -752,6 +765,9 @@ impl Sched {
                 }
                 let to_ok = p.ids.contains(&m.to) && cl.is_up(m.to);
                 let idle = to_ok && cl.nodes[cl.slot(m.to)].app.outstanding.is_none();
+                if self.hold_types.iter().any(|(t, ty)| *t == m.to && *ty == mv.ty) {
+                    continue;
+                }
                 let ty_blocked = self.blocked_types.iter().any(|(t, ty)| *t == m.to && *ty == mv.ty);
                 if !p.ids.contains(&m.to) || !cl.is_up(m.to) || self.is_blocked(m.from, m.to) || ty_blocked {
                     cands.push((p.w_deliver / 2 + 1, Choice::Drop { m: mv }));
@@ -910,10 +926,37 @@ impl Sched {
         Some(c)
     }
 
+    /// Harness-level view of "the suffix has done its job" (only used to end the suffix early; the verdict is
+    /// Props!C10_Converged evaluated by TLC on the recorded states).
+    fn settled(cl: &Cluster) -> bool {
+        let ups: Vec<&crate::sim::NodeSlot> = cl.nodes.iter().filter(|s| s.raw.is_some()).collect();
+        let leaders: Vec<&&crate::sim::NodeSlot> =
+            ups.iter().filter(|s| s.raw.as_ref().unwrap().raft.state == raft::StateRole::Leader).collect();
+        if leaders.len() != 1 || !cl.net.is_empty() {
+            return false;
+        }
+        let l = leaders[0].raw.as_ref().unwrap();
+        let (last, commit, term) = (l.raft.raft_log.last_index(), l.raft.raft_log.committed, l.raft.term);
+        last == commit
+            && ups.iter().filter(|s| l.raft.prs().get(s.id).is_some()).all(|s| {
+            let r = s.raw.as_ref().unwrap();
+            r.raft.raft_log.last_index() == last
+                && r.raft.raft_log.committed == commit
+                && r.raft.term == term
+                && s.app.applied == commit
+                && s.app.outstanding.is_none()
+        })
+    }
+
     /// Fault-free stabilisation suffix: restart everything, heal, then run rounds of
     /// (tick every node; process all readies synchronously; deliver everything to quiescence).
-    pub fn stabilize(&mut self, cl: &mut Cluster, out: &mut Vec<Event>, rounds: usize) -> bool {
+    /// At least `rounds / 2` rounds pass before the probe entry is proposed; the suffix ends as soon as the probe
+    /// is applied everywhere and the cluster has settled, or after `6 * rounds` rounds (the bound of C10).
+    pub fn stabilize(&mut self, cl: &mut Cluster, out: &mut Vec<Event>, rounds: usize, payload: &str) -> bool {
         self.blocked.clear();
+        self.blocked_types.clear();
+        self.hold_types.clear();
+        crate::sim::PROBE_PAYLOAD.with(|p| *p.borrow_mut() = payload.to_string());
         let ids = cl.cfg.ids.clone();
         let mut push = |cl: &mut Cluster, c: Choice, out: &mut Vec<Event>| {
             if let Some(e) = cl.apply_choice(&c) {
@@ -929,7 +972,14 @@ impl Sched {
             }
         }
         let mut probe_done = false;
-        for round in 0..rounds {
+        let mut since_probe = 0;
+        for round in 0..rounds * 6 {
+            if probe_done {
+                since_probe += 1;
+                if since_probe >= 3 && Self::settled(cl) {
+                    break;
+                }
+            }
             if !probe_done && round >= rounds / 2 {
                 let leader = ids.iter().copied().find(|n| {
                     cl.is_up(*n)
@@ -938,19 +988,22 @@ impl Sched {
                 });
                 if let Some(n) = leader {
                     let before = out.len();
-                    push(cl, Choice::Propose { n, p: "zz".into() }, out);
+                    push(cl, Choice::Propose { n, p: payload.to_string() }, out);
                     if out.len() > before && out[out.len() - 1].rk == "ok" {
                         probe_done = true;
                     }
                 }
             }
             // deterministic rotating timeouts
-            for (k, n) in ids.iter().enumerate() {
+            for n in ids.iter() {
                 let i = cl.slot(*n);
                 let et = cl.nodes[i].knobs.election_tick;
-                cl.nodes[i].rt_next = et + ((k + round) % et);
+                // seeded pseudo-random timeouts, as the library's own randomisation provides (a fixed
+                // rotation can resonate with the election period and livelock the suffix)
+                cl.nodes[i].rt_next = self.rng.gen_range(et..2 * et);
                 cl.nodes[i].rt_used = false;
             }
+            let _ = round;
             for n in &ids {
                 if cl.is_up(*n) && cl.nodes[cl.slot(*n)].app.outstanding.is_none() {
                     push(cl, Choice::Tick { n: *n }, out);
@@ -1350,10 +1403,57 @@ impl Sched {
                     self.run_steps(cl, out, 120);
                     self.prof.w_compact = 10;
                     self.run_steps(cl, out, 70);
+                    let bounce = self.rng.gen_bool(0.5);
+                    let w_drop = self.prof.w_drop;
                     self.blocked.clear();
+                    if bounce {
+                        // snapshots for the lagging follower stay in flight while leadership moves away and back
+                        self.hold_types = vec![(f, "Snap".into())];
+                        self.prof.w_drop = 0;
+                    }
                     self.prof.w_reqsnap = 3;
                     self.reads_left = 2;
-                    self.run_steps(cl, out, 200);
+                    self.run_steps(cl, out, 60);
+                    let in_snapshot = |cl: &Cluster, l: u64, f: u64| {
+                        cl.nodes[cl.slot(l)].raw.as_ref().map_or(false, |r| {
+                            r.raft.state == raft::StateRole::Leader
+                                && r.raft.prs().get(f).map_or(false, |p| p.state == raft::ProgressState::Snapshot)
+                        })
+                    };
+                    if bounce {
+                        for _ in 0..8 {
+                            if Self::leader_of(cl).map_or(false, |l2| in_snapshot(cl, l2, f)) {
+                                break;
+                            }
+                            self.run_steps(cl, out, 20);
+                        }
+                    }
+                    if bounce && Self::leader_of(cl).map_or(false, |l2| in_snapshot(cl, l2, f)) {
+                        if let Some(l2) = Self::leader_of(cl) {
+                            self.isolate(&[l2], &ids);
+                            for _ in 0..12 {
+                                self.run_steps(cl, out, 20);
+                                if cl.nodes.iter().any(|s| s.id != l2 && s.raw.as_ref().map_or(false, |r| r.raft.state == raft::StateRole::Leader)) {
+                                    break;
+                                }
+                            }
+                            self.blocked.clear();
+                            self.run_steps(cl, out, 50);
+                            // the in-flight snapshot resolves (delivered or reported lost) while l2 is a follower
+                            self.hold_types.clear();
+                            self.run_steps(cl, out, 40);
+                            for _ in 0..4 {
+                                if Self::leader_of(cl) == Some(l2) {
+                                    break;
+                                }
+                                self.do_choice(cl, out, Choice::Campaign { n: l2 });
+                                self.run_steps(cl, out, 50);
+                            }
+                        }
+                        self.hold_types.clear();
+                        self.prof.w_drop = w_drop;
+                    }
+                    self.run_steps(cl, out, 140);
                 }
             }
             "lag_read" => {
@@ -1438,6 +1538,23 @@ impl Sched {
                     }
                     self.prof.w_campaign = if self.rng.gen_bool(0.5) { 4 } else { 0 };
                     self.run_steps(cl, out, 160);
+                }
+                if self.rng.gen_bool(0.6) {
+                    // the prefix ends with a transfer whose MsgTimeoutNow is lost
+                    if let Some(l) = Self::leader_of(cl) {
+                        let t = *ids.iter().filter(|x| **x != l).collect::<Vec<_>>().choose(&mut self.rng).unwrap().clone();
+                        self.prof.w_campaign = 0;
+                        self.run_steps(cl, out, 60);
+                        self.do_choice(cl, out, Choice::Transfer { n: l, to: t });
+                        for _ in 0..6 {
+                            if cl.find_match(l, t, "TimeoutNow", -1).is_some() {
+                                break;
+                            }
+                            let c = if cl.nodes[cl.slot(l)].app.outstanding.is_some() { Choice::AdvanceAppend { n: l } } else { Choice::Ready { n: l } };
+                            self.do_choice(cl, out, c);
+                        }
+                        self.do_choice(cl, out, Choice::DropMatch { from: l, to: t, ty: "TimeoutNow".into(), idx: -1 });
+                    }
                 }
             }
             "reelect" => {
